@@ -6,9 +6,10 @@ import LinVerif.Lemmas.C19Base
 
 namespace LinVerif.Pipeline
 
-/-- the instruction is not the execution of a panicking stage -/
-def Instr.noPanicExec : Instr → Prop
-  | .exec s => s.out ≠ .panic
+/-- the instruction loses no completion: it is not the execution of a panicking stage, or the
+panicking stage is completed by `executeStage`'s own recover (variant `stageRecover`) -/
+def Instr.noLoss (cfg : Cfg) : Instr → Prop
+  | .exec s => cfg.stageRecover = true ∨ s.out ≠ .panic
   | _ => True
 
 /-- token balance of one instruction; tokens are lost only when a panic unwinds a continuation -/
@@ -19,11 +20,11 @@ theorem stepInstr_owed_le (cfg : Cfg) (sh : Shared) (pooled : Bool) (i : Instr) 
   cases i <;> simp only [stepInstr] <;> (repeat' split) <;> simp [Instr.owed] <;> omega
 
 theorem stepInstr_owed_eq (cfg : Cfg) (sh : Shared) (pooled : Bool) (i : Instr) (rest : List Instr)
-    (hnp : i.noPanicExec) :
+    (hnp : i.noLoss cfg) :
     sh.pending + (csum Instr.owed (stepInstr cfg sh pooled i rest).code : Int)
         + (tsum Instr.owed (stepInstr cfg sh pooled i rest).spawn : Int)
       = (stepInstr cfg sh pooled i rest).sh.pending + (csum Instr.owed (i :: rest) : Int) := by
-  cases i <;> simp only [stepInstr] <;> (repeat' split) <;> simp_all [Instr.owed, Instr.noPanicExec] <;> omega
+  cases i <;> simp only [stepInstr] <;> (repeat' split) <;> simp_all [Instr.owed, Instr.noLoss] <;> omega
 
 theorem stepInstr_wf (cfg : Cfg) (sh : Shared) (pooled : Bool) (i : Instr) (rest : List Instr)
     (h : wfCode (i :: rest)) :
@@ -43,8 +44,10 @@ theorem stepInstr_wf (cfg : Cfg) (sh : Shared) (pooled : Bool) (i : Instr) (rest
     simp only [stepInstr]; split
     · exact ⟨wfCode_handler_append st hr, by simp⟩
     · exact ⟨wfCode_cons_of_not_startLike rfl hr, by simp⟩
-    · refine ⟨?_, by simp⟩
-      cases pooled <;> simp [wfCode, Instr.startLike]
+    · split
+      · exact ⟨wfCode_cons_of_not_startLike rfl hr, by simp⟩
+      · refine ⟨?_, by simp⟩
+        cases pooled <;> simp [wfCode, Instr.startLike]
   | track e => exact ⟨wfCode_cons_of_not_startLike rfl hr, by simp [stepInstr]⟩
   | dec e =>
     simp only [stepInstr]
@@ -90,7 +93,7 @@ theorem step_gap_le {cfg : Cfg} {s s' : State} {n : Nat} (h : stepAt cfg s n = s
   omega
 
 theorem step_gap_eq {cfg : Cfg} {s s' : State} {n : Nat} (h : stepAt cfg s n = some s')
-    (hnp : ∀ t ∈ s.threads, ∀ i ∈ t.code, i.noPanicExec) : gap s' = gap s := by
+    (hnp : ∀ t ∈ s.threads, ∀ i ∈ t.code, i.noLoss cfg) : gap s' = gap s := by
   obtain ⟨pooled, i, rest, hget, rfl⟩ := stepAt_elim h
   have h1 := stepInstr_owed_eq cfg s.sh pooled i rest (hnp _ (List.mem_of_getElem? hget) i (by simp))
   have h2 := tsum_step (w := Instr.owed) (t1 := ⟨pooled, (stepInstr cfg s.sh pooled i rest).code⟩)
@@ -160,8 +163,10 @@ theorem stepInstr_stageOK {P : Stage → Prop} (hP : ∀ s, P s → ∀ c ∈ s.
       · trivial
       · exact hr j hj
     · exact ⟨cons trivial, by simp⟩
-    · refine ⟨?_, by simp⟩
-      cases pooled <;> simp [Instr.stageOK]
+    · split
+      · exact ⟨cons trivial, by simp⟩
+      · refine ⟨?_, by simp⟩
+        cases pooled <;> simp [Instr.stageOK]
   | track e => exact ⟨cons trivial, by simp [stepInstr]⟩
   | dec e =>
     simp only [stepInstr]
